@@ -902,7 +902,7 @@ def r4_refs_resolve(ctx):
 VISITOR = r"^<schema_util::ReferenceVisitor<'_> as schemars::visit::Visitor>::visit_schema_object$"
 RV = "schema_util::ReferenceVisitor"
 SO_REF = ("schemars::schema::SchemaObject", "reference")
-CONST_SCHEMA_OK = [r"boxed::Box::<T>::new$", r"convert::Into::into$", r"convert::From::from$", r"default::Default::default$", r"string::String::from$", r"string::ToString::to_string$"]
+CONST_SCHEMA_OK = [r"boxed::Box::<T>::new$", r"convert::Into::into$", r"convert::From::from$", r"default::Default::default$", r"string::String::from$", r"string::ToString::to_string$", r"borrow::ToOwned::to_owned$", r"string::String::new$", r"str::<impl str>::to_string$"]
 
 
 def r4b_dependencies_transitive(ctx):
